@@ -17,11 +17,20 @@
    Packets are [ch, d] on the port of the table; d is the data as bytes.  Indices are encoded
    explicitly (i % 256, i \div 256) so that the 255/256 boundary is in the model.
 
+   Round 2: the front end of the log download is part of the model (Log.refresh_toc sends the
+   RESET command, its reply creates the Toc and starts the TocFetcher, guarded by `if not
+   self.toc`), so that the RESET reply can be duplicated / delayed like every other reply; the
+   cache is a state (absent, written by this release, written by an older release without the
+   'extended' key, ...); the table checksum is part of the configuration and chosen so that the
+   bytes of an INFO reply parse as an element.
+
    Bug = "none" is the code as it is; other values are named breakages used as vacuity guards
    (MC_TocFetch_bug_*.cfg must be refuted).  *)
 EXTENDS Naturals, Sequences, FiniteSets, Bags, TLC
 
 CONSTANTS Configs,   \* set of [kind, ver, dev, crc, cached, resend] one download may be started with
+                     \* (cached: "none" | "own" = written by this release | "old" = written by a release that
+                     \*  did not know extended types | "extra" = own + unknown keys | "broken" = unparsable)
           Budget,    \* number of environment faults (Dup + Timeout) per download
           Window,    \* faults are injected only while the index being fetched is in this set
           Bug
@@ -29,6 +38,7 @@ CONSTANTS Configs,   \* set of [kind, ver, dev, crc, cached, resend] one downloa
 P == INSTANCE TocFetchProps
 
 VARIABLES cfg,                      \* chosen by Start, constant afterwards
+          lt,                       \* Log front end: "off" (param download) | "wait" (Log.toc is None, RESET sent) | "on" (Toc exists)
           fstate, cbOn, reqIdx, nItems,   \* TocFetcher.state / port callback registered / requested_index / nbr_of_items
           toc,                      \* Toc.toc as the sequence of elements in dict iteration order
           pend,                     \* Crazyflie._answer_patterns (set of [ch, d]: pattern = request here)
@@ -37,7 +47,7 @@ VARIABLES cfg,                      \* chosen by Start, constant afterwards
           xstate, xcount, xreq, xqueue, xlock,   \* _ExtendedTypeFetcher: registered/_count/_req_param/request_queue/_lock
           done, doneSnap            \* the finished callback chain has signalled completion; the table at that moment
 
-vars == <<cfg, fstate, cbOn, reqIdx, nItems, toc, pend, up, down, budget,
+vars == <<cfg, lt, fstate, cbOn, reqIdx, nItems, toc, pend, up, down, budget,
           xstate, xcount, xreq, xqueue, xlock, done, doneSnap>>
 
 NoReq == 65536                      \* _req_param = -1
@@ -48,7 +58,8 @@ N == Len(cfg.dev)
 \* ---------------------------------------------------------------- the device (simdev twin)
 DevAnswer(rq) ==
     LET c == rq.d[1] IN
-    IF rq.ch = 0 THEN
+    IF rq.ch = 1 THEN [ch |-> 1, d |-> <<c, 0, 0>>]      \* log control: [cmd] -> [cmd, block id, status]
+    ELSE IF rq.ch = 0 THEN
       CASE c = 3 -> [ch |-> 0, d |-> <<3, Lo(N), Hi(N)>> \o cfg.crc \o (IF cfg.kind = "log" THEN <<16, 128>> ELSE <<>>)]
         [] c = 1 -> [ch |-> 0, d |-> <<1, Lo(N)>> \o cfg.crc \o (IF cfg.kind = "log" THEN <<16, 128>> ELSE <<>>)]
         [] c = 2 -> LET i == rq.d[2] + 256 * rq.d[3] IN
@@ -69,12 +80,15 @@ LibLogTypes == [c \in 1..8 |-> P!LogType(c)]        \* LogTocElement.types (keys
 FirstNul(s) == CHOOSE i \in 1..Len(s) : s[i] = 0 /\ \A j \in 1..(i - 1) : s[j] # 0
 HasNul(s) == \E i \in 1..Len(s) : s[i] = 0
 Decodable(data) ==     \* the constructor does not raise
-    /\ Len(data) >= 2 /\ HasNul(Tail(data))
-    /\ IF cfg.kind = "log" THEN data[1] \in DOMAIN LibLogTypes ELSE (data[1] % 16) \in P!ParamCodes
+    IF cfg.kind = "log"
+    THEN Len(data) >= 1 /\ data[1] \in DOMAIN LibLogTypes     \* bytes.find() = -1 without NUL: no exception
+    ELSE Len(data) >= 2 /\ HasNul(Tail(data)) /\ (data[1] % 16) \in P!ParamCodes
 Decode(ident, data) ==
     LET s == Tail(data)
-        z == FirstNul(s)
-        g == SubSeq(s, 1, z - 1)
+        nul == HasNul(s)
+        z == IF nul THEN FirstNul(s) ELSE 0
+        \* log without NUL: naming[:-1] for the group and naming[0:-1] for the name
+        g == IF nul THEN SubSeq(s, 1, z - 1) ELSE SubSeq(s, 1, Len(s) - 1)
         rest == SubSeq(s, z + 1, Len(s))
         \* log: naming[find+1:-1]; param: split at NUL, second piece
         n == IF cfg.kind = "log" THEN SubSeq(rest, 1, Len(rest) - 1)
@@ -105,8 +119,16 @@ Grouped(t) == t
 \* (TocCache stores ident, group, name, ctype, pytype, access, extended; not persistent)
 CachedToc ==
     LET F[k \in 0..N] == IF k = 0 THEN <<>>
-                         ELSE AddElement(F[k - 1], [P!Expected(cfg.kind, k, cfg.dev[k]) EXCEPT !.persistent = FALSE])
+                         ELSE AddElement(F[k - 1], [P!Expected(cfg.kind, k, cfg.dev[k]) EXCEPT
+                                                      !.persistent = FALSE,
+                                                      !.extended = IF cfg.cached = "old" THEN FALSE ELSE @])
     IN F[N]
+\* TocCache.fetch returns a table: the file parses and every entry has the keys the decoder reads
+\* (a parameter entry without 'extended' raises KeyError inside fetch: the file is rejected); and
+\* `if (cache_data)`: an empty cached table is falsy = a miss
+CacheHit == /\ N > 0
+            /\ \/ cfg.cached \in {"own", "extra"}
+               \/ cfg.cached = "old" /\ (cfg.kind = "log" \/ Bug = "OldCacheAccepted")
 
 \* ---------------------------------------------------------------- lookups (as implemented)
 None == <<>>
@@ -131,6 +153,7 @@ ItemReq(i) == [ch |-> 0, d |-> IF cfg.ver = 2
                                THEN <<2, Lo(i), IF Bug = "Trunc8" THEN 0 ELSE Hi(i)>>
                                ELSE <<0, Lo(i)>>]
 ExtReq(i) == [ch |-> 3, d |-> <<2, Lo(i), Hi(i)>>]
+ResetReq == [ch |-> 1, d |-> <<5>>]
 
 \* send_packet(pk, expected_reply): transmit and, on links that need it, arm the retry timer
 Send(rq, pend0, up0) == /\ up' = Append(up0, rq)
@@ -144,26 +167,45 @@ Answered(r) ==
     ELSE pend \ {CHOOSE q \in m : \A q2 \in m : Len(q2.d) <= Len(q.d)}
 
 \* ---------------------------------------------------------------- initial state, Start
-Idle(c) == /\ cfg = c
+Idle(c) == /\ cfg = c /\ lt = "off"
            /\ fstate = "idle" /\ cbOn = FALSE /\ reqIdx = 0 /\ nItems = 0
            /\ toc = <<>> /\ pend = {} /\ up = <<>> /\ down = EmptyBag /\ budget = Budget
            /\ xstate = "off" /\ xcount = 0 /\ xreq = NoReq /\ xqueue = <<>> /\ xlock = FALSE
            /\ done = FALSE /\ doneSnap = <<>>
 
-NoCfg == [kind |-> "none", ver |-> 0, dev |-> <<>>, crc |-> <<>>, cached |-> FALSE, resend |-> FALSE]
+NoCfg == [kind |-> "none", ver |-> 0, dev |-> <<>>, crc |-> <<>>, cached |-> "none", resend |-> FALSE]
 Init == Idle(NoCfg)
 
-\* TocFetcher.start: register the port callback, ask for the table info
-\* (StartTo also resets everything else: a fetcher is a fresh object for every download)
+\* param: TocFetcher.start (register the port callback, ask for the table info).
+\* log:   Log.refresh_toc (self.toc = None, RESET command); the fetcher starts with the RESET reply.
+\* (StartTo also resets everything else: fetchers are fresh objects for every download)
 StartTo(c) ==
+    LET first == IF c.kind = "log" THEN [ch |-> 1, d |-> <<5>>]
+                 ELSE [ch |-> 0, d |-> IF c.ver = 2 THEN <<3>> ELSE <<1>>] IN
     /\ cfg' = c
-    /\ fstate' = "info" /\ cbOn' = TRUE /\ reqIdx' = 0 /\ nItems' = 0 /\ toc' = <<>>
-    /\ up' = <<[ch |-> 0, d |-> IF c.ver = 2 THEN <<3>> ELSE <<1>>]>>
-    /\ pend' = IF c.resend THEN {[ch |-> 0, d |-> IF c.ver = 2 THEN <<3>> ELSE <<1>>]} ELSE {}
+    /\ lt' = IF c.kind = "log" THEN "wait" ELSE "off"
+    /\ fstate' = IF c.kind = "log" THEN "idle" ELSE "info"
+    /\ cbOn' = (c.kind # "log")
+    /\ reqIdx' = 0 /\ nItems' = 0 /\ toc' = <<>>
+    /\ up' = <<first>>
+    /\ pend' = IF c.resend THEN {first} ELSE {}
     /\ down' = EmptyBag /\ budget' = Budget
     /\ xstate' = "off" /\ xcount' = 0 /\ xreq' = NoReq /\ xqueue' = <<>> /\ xlock' = FALSE
     /\ done' = FALSE /\ doneSnap' = <<>>
 Start(c) == fstate = "idle" /\ cfg = NoCfg /\ StartTo(c)
+
+\* Log._new_packet_cb, RESET reply: `if not self.toc:` -> new Toc, new TocFetcher, start.
+\* ResetGuardLen: the guard also lets an existing but EMPTY table through (a Toc with __len__);
+\* the second fetcher takes the place of the first in this model.
+LogResetCb(r, pend1) ==
+    IF Len(r.d) >= 3 /\ r.d[1] = 5 /\
+       (lt = "wait" \/ (Bug = "ResetGuardLen" /\ lt = "on" /\ toc = <<>>))
+    THEN /\ lt' = "on"
+         /\ fstate' = "info" /\ cbOn' = TRUE /\ reqIdx' = 0 /\ nItems' = 0 /\ toc' = <<>>
+         /\ Send(InfoReq, pend1, up)
+         /\ UNCHANGED <<xstate, xcount, xreq, xqueue, xlock, done, doneSnap>>
+    ELSE /\ pend' = pend1
+         /\ UNCHANGED <<lt, fstate, cbOn, reqIdx, nItems, toc, up, xstate, xcount, xreq, xqueue, xlock, done, doneSnap>>
 
 \* ---------------------------------------------------------------- completion chain
 \* _toc_fetch_finished -> finished_callback.  log: done.  param: Param.refresh_toc.refresh_done
@@ -194,7 +236,7 @@ FetcherCb(r, pend1) ==
              /\ UNCHANGED <<fstate, cbOn, reqIdx, nItems, toc, up, xstate, xcount, xreq, xqueue, xlock, done, doneSnap>>
         ELSE LET n == IF cfg.ver = 2 THEN payload[1] + 256 * payload[2] ELSE payload[1] IN
              /\ nItems' = n
-             /\ IF cfg.cached /\ N > 0          \* `if (cache_data)`: an empty cached table is falsy = a miss
+             /\ IF CacheHit
                 THEN /\ Finish(CachedToc, pend1, up)
                      /\ UNCHANGED <<fstate, reqIdx>>
                 ELSE /\ fstate' = "elem" /\ reqIdx' = 0
@@ -210,6 +252,7 @@ FetcherCb(r, pend1) ==
         ELSE LET ident == IF cfg.ver = 2 THEN payload[1] + 256 * payload[2] ELSE payload[1]
                  data == SubSeq(payload, hdr + 1, Len(payload))
                  match == CASE Bug = "AcceptAny" -> TRUE
+                            [] Bug = "AcceptHigher" -> ident >= reqIdx
                             [] Bug = "Trunc8" -> ident % 256 = reqIdx % 256
                             [] OTHER -> ident = reqIdx
              IN
@@ -252,10 +295,11 @@ ExtCb(r, pend1) ==
 \* the dispatcher thread handles one received packet
 Process(r) ==
     LET pend1 == Answered(r) IN
-    IF r.ch = 0 /\ cbOn THEN FetcherCb(r, pend1)
-    ELSE IF r.ch = 3 /\ xstate # "off" THEN ExtCb(r, pend1)
+    IF r.ch = 1 /\ cfg.kind = "log" THEN LogResetCb(r, pend1)
+    ELSE IF r.ch = 0 /\ cbOn THEN FetcherCb(r, pend1) /\ UNCHANGED lt
+    ELSE IF r.ch = 3 /\ xstate # "off" THEN ExtCb(r, pend1) /\ UNCHANGED lt
     ELSE /\ pend' = pend1
-         /\ UNCHANGED <<fstate, cbOn, reqIdx, nItems, toc, up, xstate, xcount, xreq, xqueue, xlock, done, doneSnap>>
+         /\ UNCHANGED <<lt, fstate, cbOn, reqIdx, nItems, toc, up, xstate, xcount, xreq, xqueue, xlock, done, doneSnap>>
 
 Deliver(r) == /\ BagIn(r, down)
               /\ down' = down (-) SetToBag({r})
@@ -266,13 +310,13 @@ Deliver(r) == /\ BagIn(r, down)
 ExtSend == /\ xstate = "run" /\ xqueue # <<>> /\ ~xlock
            /\ xlock' = TRUE /\ xreq' = Head(xqueue) /\ xqueue' = Tail(xqueue)
            /\ Send(ExtReq(Head(xqueue)), pend, up)
-           /\ UNCHANGED <<cfg, fstate, cbOn, reqIdx, nItems, toc, down, budget, xstate, xcount, done, doneSnap>>
+           /\ UNCHANGED <<cfg, lt, fstate, cbOn, reqIdx, nItems, toc, down, budget, xstate, xcount, done, doneSnap>>
 
 \* ---------------------------------------------------------------- environment
 DevReply == /\ up # <<>>
             /\ up' = Tail(up)
             /\ down' = down (+) SetToBag({DevAnswer(Head(up))})
-            /\ UNCHANGED <<cfg, fstate, cbOn, reqIdx, nItems, toc, pend, budget,
+            /\ UNCHANGED <<cfg, lt, fstate, cbOn, reqIdx, nItems, toc, pend, budget,
                            xstate, xcount, xreq, xqueue, xlock, done, doneSnap>>
 
 \* large tables: the faults are placed around the indices of interest (a stale reply may still
@@ -284,19 +328,31 @@ Hot == IF fstate = "elem" /\ cbOn THEN reqIdx \in Window
 Dup(r) == /\ budget > 0 /\ BagIn(r, down) /\ Hot
           /\ down' = down (+) SetToBag({r})
           /\ budget' = budget - 1
-          /\ UNCHANGED <<cfg, fstate, cbOn, reqIdx, nItems, toc, pend, up,
+          /\ UNCHANGED <<cfg, lt, fstate, cbOn, reqIdx, nItems, toc, pend, up,
                          xstate, xcount, xreq, xqueue, xlock, done, doneSnap>>
 
 \* the awaited reply is late: the retry timer fires and the same request goes out again
 Timeout(q) == /\ budget > 0 /\ q \in pend /\ Hot
               /\ up' = Append(up, q)
               /\ budget' = budget - 1
-              /\ UNCHANGED <<cfg, fstate, cbOn, reqIdx, nItems, toc, pend, down,
+              /\ UNCHANGED <<cfg, lt, fstate, cbOn, reqIdx, nItems, toc, pend, down,
                              xstate, xcount, xreq, xqueue, xlock, done, doneSnap>>
+
+\* A duplicated protocol-version (or link-source) reply.  The repaired PlatformService hands the
+\* platform information over once per fetch, so the duplicate changes nothing and is not an action
+\* here.  VersionRestarts is the behaviour before the repair: every version reply calls the
+\* connection set-up again, i.e. Log.refresh_toc (self.toc = None, RESET) while a download may
+\* be under way.
+Restart == /\ Bug = "VersionRestarts" /\ budget > 0 /\ cfg.kind = "log" /\ lt # "off" /\ ~done
+           /\ lt' = "wait"
+           /\ Send(ResetReq, pend, up)
+           /\ budget' = budget - 1
+           /\ UNCHANGED <<cfg, fstate, cbOn, reqIdx, nItems, toc, down,
+                          xstate, xcount, xreq, xqueue, xlock, done, doneSnap>>
 
 Next == \/ \E c \in Configs : Start(c)
         \/ \E r \in BagToSet(down) : Deliver(r) \/ Dup(r)
-        \/ ExtSend \/ DevReply
+        \/ ExtSend \/ DevReply \/ Restart
         \/ \E q \in pend : Timeout(q)
 
 Spec == Init /\ [][Next]_vars
@@ -308,9 +364,9 @@ TableStaysOK == done => P!TableClause(cfg.kind, cfg.dev, toc) = "ok"
 LookupsOK    == done => P!LookupClause(cfg.dev, Lookups(toc)) = "ok"
 \* the download does not stall: when nothing is in flight and no thread can move, it is complete
 Quiescent == up = <<>> /\ down = EmptyBag /\ ~(xstate = "run" /\ xqueue # <<>> /\ ~xlock)
-Progress == (fstate # "idle" /\ Quiescent) => done
+Progress == (cfg # NoCfg /\ Quiescent) => done
 OnePattern == Cardinality(pend) <= 1
-TypeOK == /\ fstate \in {"idle", "info", "elem"}
+TypeOK == /\ fstate \in {"idle", "info", "elem"} /\ lt \in {"off", "wait", "on"}
           /\ reqIdx \in 0..65535 /\ nItems \in 0..65535 /\ budget \in 0..Budget
           /\ xstate \in {"off", "run"} /\ cbOn \in BOOLEAN /\ done \in BOOLEAN
 LegalConfigs == \A c \in Configs : P!LegalTable(c.kind, c.dev)
